@@ -260,12 +260,25 @@ func vASCII(name string, max int) string {
 }
 
 // verif:desc C02-O3 field-name quoting: the text zson.QuotedName(s) + ":" (as Formatter writes a record field) is read by Parser.matchSymbol (matchString / matchIdentifier / Lexer.scanIdentifier) as exactly s, leaving ':' next; an unquoted result implies IsIdentifier(s).
-// verif:bounds every ASCII string s of length 0..3 (bytes symbolic, < 0x80)
+// verif:bounds every ASCII string s of length 0..2 (bytes symbolic, < 0x80)
 // verif:outside non-ASCII names (unicode tables); the quoted branch is the O2 kernel and is also executed here
 // verif:unwind 40
 // verif:solver z3-new
 func VerifH_C02_O3_fieldname() {
-	s := vASCII("s", 3)
+	vFieldName(2)
+}
+
+// verif:desc C02-O3 (thorough bound) as VerifH_C02_O3_fieldname for length 0..3
+// verif:bounds every ASCII string s of length 0..3
+// verif:tier thorough
+// verif:unwind 40
+// verif:solver z3-new
+func VerifH_C02_O3_fieldname_thorough() {
+	vFieldName(3)
+}
+
+func vFieldName(max int) {
+	s := vASCII("s", max)
 	q := QuotedName(s)
 	if q == s {
 		verif.Assert(IsIdentifier(s), "name-unquoted-nonidentifier")
@@ -287,12 +300,25 @@ func VerifH_C02_O3_fieldname() {
 }
 
 // verif:desc C02-O3 type-name quoting: the text zson.QuotedTypeName(s) followed by ')' or '=' (as Formatter writes "(=name)", "(name)", "name=type") is read by Lexer.scanTypeName as exactly s, leaving the delimiter next; an unquoted result implies IsTypeName(s).
-// verif:bounds every ASCII string s of length 1..3 that zed.Context.LookupTypeNamed accepts (not a primitive type name); delimiter in {')','='}
+// verif:bounds every ASCII string s of length 1..2 that zed.Context.LookupTypeNamed accepts (not a primitive type name, e.g. "ip"); delimiter in {')','='}
 // verif:outside non-ASCII names; the empty type name (zed.Context.LookupTypeNamed accepts it but the ZSON grammar cannot express it: "1(=)" does not parse); the keywords "error"/"enum" (longer than the bound)
 // verif:unwind 40
 // verif:solver z3-new
 func VerifH_C02_O3_typename() {
-	s := vASCII("s", 3)
+	vTypeName(2)
+}
+
+// verif:desc C02-O3 (thorough bound) as VerifH_C02_O3_typename for length 1..3 (reaches the primitive name "net")
+// verif:bounds every ASCII string s of length 1..3 that LookupTypeNamed accepts; delimiter in {')','='}
+// verif:tier thorough
+// verif:unwind 40
+// verif:solver z3-new
+func VerifH_C02_O3_typename_thorough() {
+	vTypeName(3)
+}
+
+func vTypeName(max int) {
+	s := vASCII("s", max)
 	// the ZSON grammar has no empty type name (Parser.parseDecorator rejects
 	// it quoted or not), and LookupTypeNamed refuses primitive type names
 	verif.Assume(len(s) > 0 && zed.LookupPrimitive(s) == nil)
